@@ -1,5 +1,6 @@
 SPECIFICATION Spec
-CONSTANTS Transport = "ws"
+CONSTANTS
+  LockedSteps = {} Transport = "ws"
 INVARIANTS NothingBeforeTheEnd GaugeNeverNegative
 PROPERTIES EndingReleasesEverything ReleasedIsStable
 CHECK_DEADLOCK FALSE
